@@ -87,6 +87,19 @@ def run(ctx):
             evs.append(("d", gens.frame(k % 8, b"R|%d|x" % k, True)))
         evs.append(("d", gens.EOT))
         hs.append(("astm", evs + gens.PROBE, {"kinds": ["long:%d" % n], "nontrivial": True}))
+    # ... nor on how many sessions the connection has seen: several hundred consecutive sessions (an analyser that
+    # stays connected for days), with a second ENQ and a frame inside some of them
+    for i in range(4 if ctx.thorough else 2):
+        evs = []
+        n = r.choice([300, 520, 700])
+        for k in range(n):
+            evs.append(("d", gens.ENQ))
+            if k % 37 == 5 or k in (254, 255, 256, 257, 511, 512):
+                evs.append(("d", gens.ENQ))                                   # NAKed: a transfer is open
+                evs.append(("d", gens.frame(1, b"R|%d|y" % k, True)))
+            evs.append(("d", gens.EOT))
+        hs2 = [("astm", evs + gens.PROBE, {"kinds": ["sessions:%d" % n], "nontrivial": True})]
+        run_histories_fmt(lt, hs2, ctx)
     run_histories_fmt(lt, hs, ctx)
     streams.append(lt)
 
